@@ -371,6 +371,40 @@ def check_progress(ctx):
             st.extend(s for s in f.blocks[b].succ if s is not None)
         ctx.check(not stuck, "T1-decoder-progress", fn_name, f.name, f.loc, "every loop round consumes input",
                   "a loop round can return to the loop head without consuming input")
+    # scans over entries that may be damaged: every round of the loop moves the child iterator
+    for fn_name, file, move in (("find_next_user_entry", "src/db_iter.c", "next"), ("find_prev_user_entry", "src/db_iter.c", "prev")):
+        f = ctx.fn(fn_name, file)
+        def moves(e, move=move):
+            if e.get("e") != "call":
+                return False
+            if is_call(e, "ldb_iter_" + move):
+                return True
+            return e.get("fp") is not None and key(e["fp"]).endswith("->" + move)
+        consuming = {b.id for b in f.blocks.values() if any(moves(e) for e in b.ev)}
+        ctx.require(len(consuming) >= 1, "%s: the step of the child iterator not found" % fn_name)
+        def cyclic(skip):
+            color = {}
+            def visit(b0):
+                st = [(b0, iter([s for s in f.blocks[b0].succ if s is not None and s not in skip]))]
+                color[b0] = 1
+                while st:
+                    b, it = st[-1]
+                    for s in it:
+                        if color.get(s) == 1:
+                            return True
+                        if s not in color:
+                            color[s] = 1
+                            st.append((s, iter([x for x in f.blocks[s].succ if x is not None and x not in skip])))
+                            break
+                    else:
+                        color[b] = 2
+                        st.pop()
+                return False
+            return any(visit(b) for b in list(f.blocks) if b not in color and b not in skip)
+        ctx.require(cyclic(set()), "%s: scan loop not found" % fn_name)
+        ctx.check(not cyclic(consuming), "T1-decoder-progress", fn_name, f.name, f.loc,
+                  "every round of the scan steps the child iterator (an entry that does not parse is skipped, not retried)",
+                  "a round of the scan can return to the loop condition without moving the child iterator: on such an entry the scan never ends")
     db = ctx.fn("decode_blocks", SNP)
     heads = [b.id for b in db.blocks.values() if b.term is not None and "cond" in b.term and key(b.term["cond"]) == "(xn > 0)"]
     ctx.require(len(heads) == 1, "decode_blocks: loop head not found")
